@@ -123,6 +123,9 @@ func intKind(t types.Type) (bits int, unsigned bool, ok bool) {
 
 // lenBase: canonical value whose length is meant (strip len-preserving conversions)
 func lenBase(v ssa.Value) ssa.Value {
+	if r := loadRep(v); r != nil {
+		v = r
+	}
 	for {
 		switch x := v.(type) {
 		case *ssa.ChangeType:
@@ -1683,4 +1686,90 @@ func (lb *LB) loopUpperInvariants(phi *ssa.Phi) []cons {
 	}
 	loopUpperCache[phi] = out
 	return out
+}
+
+// loadRep: a load of a field of a local struct variable denotes the same value as an earlier dominating
+// load of the same field when no store to that field (and no call receiving the variable's address) can
+// execute between the two.
+var loadRepCache = map[ssa.Value]ssa.Value{}
+
+func loadRep(v ssa.Value) ssa.Value {
+	ld, ok := v.(*ssa.UnOp)
+	if !ok || ld.Op != token.MUL {
+		return nil
+	}
+	fa, ok := ld.X.(*ssa.FieldAddr)
+	if !ok {
+		return nil
+	}
+	al, ok := fa.X.(*ssa.Alloc)
+	if !ok {
+		return nil
+	}
+	if r, ok := loadRepCache[v]; ok {
+		return r
+	}
+	loadRepCache[v] = nil
+	f := ld.Parent()
+	var writers []ssa.Instruction
+	var loads []*ssa.UnOp
+	for _, u := range *al.Referrers() {
+		switch x := u.(type) {
+		case *ssa.FieldAddr:
+			for _, u2 := range *x.Referrers() {
+				switch y := u2.(type) {
+				case *ssa.Store:
+					if y.Addr == ssa.Value(x) && x.Field == fa.Field {
+						writers = append(writers, y)
+					}
+				case *ssa.UnOp:
+					if x.Field == fa.Field && y.Op == token.MUL {
+						loads = append(loads, y)
+					}
+				case ssa.CallInstruction:
+					writers = append(writers, y) // address of the field passed on
+				}
+			}
+		case ssa.CallInstruction:
+			writers = append(writers, x) // &local passed to a call
+		case *ssa.MakeInterface:
+			// &local boxed (e.g. for asn1.Unmarshal): its users are calls
+			for _, u2 := range *x.Referrers() {
+				if ci, ok := u2.(ssa.CallInstruction); ok {
+					writers = append(writers, ci)
+				}
+			}
+		case *ssa.Store:
+			if x.Addr == ssa.Value(al) {
+				writers = append(writers, x)
+			}
+		}
+	}
+	_ = f
+	var best *ssa.UnOp
+	for _, l1 := range loads {
+		if l1 == ld || !instrDominates(l1, ld) {
+			continue
+		}
+		okRep := true
+		for _, w := range writers {
+			if instrReaches(w, ld, l1) && !instrDominates(w, l1) {
+				okRep = false
+				break
+			}
+			// a writer that dominates l1 could still re-execute in a loop between l1 and ld
+			if instrDominates(w, l1) && instrReaches(w, ld, l1) && instrReaches(l1, w, nil) {
+				okRep = false
+				break
+			}
+		}
+		if okRep && (best == nil || instrDominates(l1, best)) {
+			best = l1
+		}
+	}
+	if best != nil {
+		loadRepCache[v] = best
+		return best
+	}
+	return nil
 }
